@@ -1310,6 +1310,13 @@ func (a *Analysis) IdxGuard() *report.RuleResult {
 			v.why = "not implied by the conditions that dominate it: " + strings.Join(failed, ", ")
 		}
 	}
+	var mproved map[string]bool
+	markProved := func() map[string]bool {
+		if mproved == nil {
+			_, mproved = a.MarkFlow()
+		}
+		return mproved
+	}
 	var keys []string
 	for k := range out {
 		keys = append(keys, k)
@@ -1321,6 +1328,9 @@ func (a *Analysis) IdxGuard() *report.RuleResult {
 		fn := strings.SplitN(k, "/", 2)[0]
 		if v.ok {
 			res.OK(k, m.Prog.Pos(v.pos), fn, fmt.Sprintf("%d site(s): bounds follow from the dominating conditions and the scanner invariants", v.count))
+		} else if expr := strings.SplitN(strings.TrimPrefix(k, "Lex/"), " !", 2)[0]; strings.HasPrefix(k, "Lex/") && markProved()[expr] {
+			res.OK(k, m.Prog.Pos(v.pos), fn, "the bounds rest on cursor positions kept in locals of Lex: proved by mark-flow (recorded on every path since the token began, in order, inside the token; a recorded cursor is < len)")
+			res.Count("by-mark-flow", 1)
 		} else if why, ok := idxReviewed[k]; ok {
 			res.OK(k, m.Prog.Pos(v.pos), fn, "reviewed: "+why)
 			res.Count("reviewed-exceptions", 1)
@@ -1344,8 +1354,6 @@ func hasTerm(fs []fact, t string) bool {
 
 // idxReviewed: accesses whose safety rests on an invariant the prover does not derive, each confirmed by reading.
 var idxReviewed = map[string]string{
-	"Lex/lex.data[lblStart:lblEnd] !low >= 0,low <= high,high <= len": "lblStart and lblEnd are cursor positions recorded by the heredoc_lbl_start / heredoc_lbl_end actions of the same match, in that order, so 0 <= lblStart <= lblEnd <= p < len",
-	"Lex/lex.data[lblStart - 1] !index >= 0,index < len":              "lblStart is recorded after `<<<` was consumed, so 1 <= lblStart <= p < len",
 	"addFreeFloatingToken/lex.data[ps:pe] !low >= 0,low <= high,high <= len": "every call passes (ts, te) or (ts, ts+5) with ts+5 = te (rule ff-span), and 0 <= ts <= te <= len",
 	"Lex/lex.stack[lex.top] !index >= 0":                               "inlined fret of the string_var machines, which are entered only through fcall (a push), so top >= 1 before the decrement",
 }
